@@ -46,9 +46,13 @@ fn quiescent_check(index: &Index, mon: &MonDir, what: &str) -> Vec<(String, Valu
     let orphans: Vec<&String> = present.difference(&expected).collect();
     if !orphans.is_empty() {
         let kinds: BTreeSet<&str> = orphans.iter().map(|f| file_kind(f)).collect();
+        let by_merge = mon.segment_ids_created_by_merge();
+        let all_merge_created =
+            orphans.iter().all(|f| f.split_once('.').map(|(id, _)| by_merge.contains(id)).unwrap_or(false));
         errs.push((
             format!("quiescent:orphan-files:{}", kinds.into_iter().collect::<Vec<_>>().join("+")),
-            json!({"orphans": orphans.iter().take(12).collect::<Vec<_>>(), "at": what, "n_segments": metas.len()}),
+            json!({"orphans": orphans.iter().take(12).collect::<Vec<_>>(), "at": what, "n_segments": metas.len(),
+                   "all_merge_created": all_merge_created}),
         ));
     }
     // persisted managed list == managed files that exist
@@ -79,11 +83,39 @@ fn quiescent_check(index: &Index, mon: &MonDir, what: &str) -> Vec<(String, Valu
     errs
 }
 
+/// `quiescent_check`, re-running GC (bounded, with back-off) while the only discrepancy is a
+/// set of files written by a merge thread: a merge thread of a rolled-back / dropped writer keeps
+/// its segment registered in the index inventory until it has returned, which nothing in the API
+/// or on the directory lets the harness observe ("merges have finished" is only reached then).
+/// A permanent leak survives the retries and is reported.
+fn quiescent_check_settled(ex: &Exec, mon: &MonDir, what: &str, rep: &mut Report) -> Vec<(String, Value)> {
+    let mut errs = quiescent_check(&ex.index, mon, what);
+    for wait_ms in [2u64, 10, 50, 200, 1000, 3000] {
+        let only_finishing_merge = !errs.is_empty()
+            && errs.iter().all(|(s, d)| s.starts_with("quiescent:orphan-files:") && d["all_merge_created"] == json!(true));
+        if !only_finishing_merge {
+            break;
+        }
+        rep.count("quiescent_recheck_for_finishing_merge_thread", 1);
+        std::thread::sleep(std::time::Duration::from_millis(wait_ms));
+        if let Some(w) = ex.writer.as_ref() {
+            let _ = w.garbage_collect_files().wait();
+        }
+        errs = quiescent_check(&ex.index, mon, what);
+    }
+    errs
+}
+
 /// brings the executor to quiescence: merges awaited (writer consumed), new writer, GC.
-fn quiesce(ex: &mut Exec) -> Result<(), String> {
+fn quiesce(ex: &mut Exec, mon: &MonDir) -> Result<(), String> {
     ex.drain_merges();
     if let Some(w) = ex.writer.take() {
         w.wait_merging_threads().map_err(|e| format!("wait_merging_threads: {e}"))?;
+    }
+    // merge threads of writers replaced by rollback() are not joined by anything in the API:
+    // "merges have finished" has to be observed on the directory
+    if !mon.wait_no_merge_in_flight(std::time::Duration::from_secs(20)) {
+        return Err("orphan-merge-still-running".into());
     }
     ex.model.rollback();
     ex.op_stamps.clear();
@@ -150,7 +182,10 @@ fn history_case(case: u64, rng: &mut Rng, rep: &mut Report) {
         rep.count(&format!("op:{}", op.kind()), 1);
         let at_commit = matches!(op, Op::Commit | Op::PrepCommit { abort: false, .. });
         if (at_commit && rng.chance(1, 2)) || i + 1 == ops.len() {
-            match quiesce(&mut ex) {
+            match quiesce(&mut ex, &mon) {
+                Err(e) if e == "orphan-merge-still-running" => {
+                    rep.count("quiescent_point_skipped:orphan-merge-still-running", 1);
+                }
                 Err(e) => {
                     if !inject_merge_fault {
                         rep.violation("api-error:quiesce", json!({"case": case, "err": e}));
@@ -160,8 +195,17 @@ fn history_case(case: u64, rng: &mut Rng, rep: &mut Report) {
                 Ok(()) => {
                     quiescent_points += 1;
                     deleted_files_seen = files_deleted_before(&mon);
-                    let mut errs = quiescent_check(&ex.index, &mon, &format!("after op {i} ({})", op.kind()));
+                    let mut errs = quiescent_check_settled(&ex, &mon, &format!("after op {i} ({})", op.kind()), rep);
                     errs.extend(ex.check_committed(false));
+                    if !errs.is_empty() && std::env::var("C10_DEBUG").is_ok() {
+                        eprintln!("MANAGED {:?}", mon.raw_bytes(".managed.json").map(|b| String::from_utf8_lossy(&b).to_string()));
+                        eprintln!("IN-FLIGHT {:?}", mon.merges_in_flight());
+                        for e in mon.log() {
+                            if !matches!(e.kind, OpKind::Write | OpKind::ReadBytes | OpKind::Flush | OpKind::Exists | OpKind::OpenRead) {
+                                eprintln!("{:5} {:24} {:8} {:?} {} ok={} {}", e.seq, e.tname, e.role, e.kind, e.path, e.ok, e.note);
+                            }
+                        }
+                    }
                     for (sig, d) in errs {
                         rep.violation(
                             sig,
@@ -303,8 +347,9 @@ fn forced_gc_case(case: u64, rng: &mut Rng, rep: &mut Report) {
     ex.step(&Op::Add(g.doc(rng, 3)));
     ex.step(&Op::Commit);
     let mut errs = ex.check_committed(true);
-    match quiesce(&mut ex) {
-        Ok(()) => errs.extend(quiescent_check(&ex.index, &mon, "after forced schedule")),
+    match quiesce(&mut ex, &mon) {
+        Ok(()) => errs.extend(quiescent_check_settled(&ex, &mon, "after forced schedule", rep)),
+        Err(e) if e == "orphan-merge-still-running" => rep.count("quiescent_point_skipped:orphan-merge-still-running", 1),
         Err(e) => errs.push(("api-error:quiesce".into(), json!(e))),
     }
     errs.extend(ex.check_committed(false));
